@@ -2,7 +2,59 @@
 
 package main
 
+import (
+	"bufio"
+	"encoding/json"
+	"os"
+
+	"github.com/sandover/ergo/internal/ergo"
+)
+
 // extra dispatches the subcommands added after the first round (kept separate so main.go stays small).
 func extra(args []string) bool {
+	switch args[0] {
+	case "serve":
+		serve()
+		return true
+	}
 	return false
+}
+
+// serve answers one JSON request per line (used by the command-level harness).
+func serve() {
+	sc := bufio.NewScanner(os.Stdin)
+	sc.Buffer(make([]byte, 0, 1<<20), 64<<20)
+	for sc.Scan() {
+		var req map[string]any
+		if err := json.Unmarshal(sc.Bytes(), &req); err != nil {
+			emit(J{"err": "bad request"})
+			out.Flush()
+			continue
+		}
+		switch req["op"] {
+		case "canon":
+			canon(req["path"].(string))
+		case "graph":
+			evs, err := ergo.VerifReadEvents(req["path"].(string))
+			if err != nil {
+				emit(J{"err": err.Error()})
+				break
+			}
+			g, err := ergo.VerifReplay(evs)
+			if err != nil {
+				emit(J{"err": classifyReplayErr(err)})
+				break
+			}
+			emit(J{"graph": ergo.VerifGraph(g), "events": ergo.VerifCanonEvents(evs), "n": len(evs)})
+		case "taskinput":
+			p, v := ergo.VerifTaskInputValid([]byte(req["doc"].(string)), req["require_title"] == true, req["is_epic"] == true)
+			emit(J{"parsed": p, "valid": v})
+		case "planinput":
+			p, v := ergo.VerifPlanValid([]byte(req["doc"].(string)))
+			emit(J{"parsed": p, "valid": v})
+		default:
+			emit(J{"err": "bad op"})
+		}
+		out.Flush()
+	}
 }
